@@ -6,6 +6,6 @@ PKG="$1"; F="$2"; T="$3"
 W=$(mktemp -d)
 cp "$F" "$W/zz_probe_test.go"
 printf '{"Replace": {"/repo/%s/zz_probe_test.go": "%s/zz_probe_test.go"}}' "$PKG" "$W" > "$W/ov.json"
-(cd /repo/"$PKG" && GOFLAGS=-mod=mod go test -overlay "$W/ov.json" -vet=off -count=1 -timeout 120s -run "^$T\$" . 2>&1 | tail -15); rc=$?
+(cd /repo/"$PKG" && GOFLAGS=-mod=mod go test -overlay "$W/ov.json" -vet=off -count=1 -timeout 120s -run "^$T\$" -v . 2>&1 | tail -${PROBE_TAIL:-15}); rc=$?
 rm -rf "$W"
 exit $rc
